@@ -33,6 +33,7 @@ import GeoProofs.Lemmas.C04XRound
 import GeoProofs.Lemmas.C04XMeasure
 import GeoProofs.Lemmas.C04XLayer
 import GeoProofs.Lemmas.C04XGeneric
+import GeoProofs.Lemmas.C04XMulti
 import GeoProofs.Props.C18
 import GeoProofs.Props.C05
 
@@ -611,6 +612,29 @@ private theorem consistentlyWound_ex : ConsistentlyWound [sqHole, sq] 1 :=
       norm_num [shoelace2, det]
     · exact ⟨by norm_num [sq, shoelace2, det], by intro h hh; simp [sq] at hh⟩⟩
 
+/-- [Tp] **pointwise statement of the property for valid MultiPolygon operands whose members have no
+holes**: member disjointness is proved from `multiPolyValid` (`II = F`, `dim BB ≤ 0` per pair is then
+the ring-level statement `rings_apart_level`), so nothing topological is assumed.
+Extra hypotheses `hha`, `hhb`: no member has a hole. The class still excluded from the full statement
+is: MultiPolygon operands with at least two members of which one has a hole
+(`booleanOp_pointwise_multi_partial` covers it given member disjointness at the point).
+Full statement: the same without `hha`, `hhb`. -/
+theorem booleanOp_pointwise_multi_holefree_partial {E : Engine} {far : Pt → List Path → Prop}
+    (hE : EngineSpec E far) (a b : List Poly) (op : OpType) (p : Pt)
+    (ha : multiPolyValid a = true) (hb : multiPolyValid b = true)
+    (hha : ∀ m ∈ a, m.ints = []) (hhb : ∀ m ∈ b, m.ints = [])
+    (hoa : offRings p a) (hob : offRings p b)
+    (hfar : far p ((rings a).map ringToShapePath ++ (rings b).map ringToShapePath)) :
+    mpInside p (booleanOp E a b op) = opCombine op (mpInside p a) (mpInside p b) :=
+  booleanOp_pointwise_multi_partial hE a b op p (multiPolyValid_members ha) (multiPolyValid_members hb)
+    hoa hob (members_apart_holefree ha hha p hoa) (members_apart_holefree hb hhb p hob) hfar
+
+/-- a counter-clockwise square away from `sq` -/
+def sqFar : Poly := ⟨[⟨10, 0⟩, ⟨14, 0⟩, ⟨14, 4⟩, ⟨10, 4⟩, ⟨10, 0⟩], []⟩
+
+example : multiPolyValid [sq, sqFar] = true ∧ (∀ m ∈ [sq, sqFar], m.ints = []) ∧
+    offRings ⟨1, 1⟩ [sq, sqFar] := by decide +kernel
+
 /-- `sqHole` clockwise, with a repeated vertex and repeated closing vertices -/
 def sqHoleRep : Poly :=
   ⟨[⟨0, 0⟩, ⟨6, 0⟩, ⟨6, 0⟩, ⟨6, 6⟩, ⟨0, 6⟩, ⟨0, 0⟩, ⟨0, 0⟩],
@@ -955,6 +979,12 @@ theorem sample_far1 (ps : List Path) : AdditiveOn (fun p => far1 p ps) (sampleMe
 example : mpInside ⟨1, 1⟩ (booleanOp E1 [sq] [sqHole] .intersection) = true := by
   rw [booleanOp_pointwise_polygon E1_spec sq sqHole .intersection ⟨1, 1⟩ (by decide +kernel)
     (by decide +kernel) (by decide +kernel) (by decide +kernel) rfl]
+  decide +kernel
+
+example : mpInside ⟨1, 1⟩ (booleanOp E1 [sq, sqFar] [sq] .intersection) = true := by
+  rw [booleanOp_pointwise_multi_holefree_partial E1_spec [sq, sqFar] [sq] .intersection ⟨1, 1⟩
+    (by decide +kernel) (by decide +kernel) (by decide +kernel) (by decide +kernel) (by decide +kernel)
+    (by decide +kernel) rfl]
   decide +kernel
 
 example : mpInside ⟨1, 1⟩ (unaryUnion E1 ([sqHole, sq].map (fun m => [m]))) = true := by
